@@ -246,3 +246,35 @@ func loopBound(ind induction) (int64, bool) {
 	}
 	return 0, false
 }
+
+// iterCount: one pseudo-variable per loop header — the number of back-edge traversals so far. Two induction variables
+// of the same header (i from 0 by 1, off from 0 by 4) advance together, so both are affine in it: off == 4*i.
+var iterCount = map[*ssa.BasicBlock]*ssa.Parameter{}
+
+// affNormInd rewrites every induction phi in a (constant init, constant step) as init + step*t, t the iteration count
+// of the phi's loop header; differences between co-advancing counters then cancel.
+func affNormInd(a affine) affine {
+	r := affine{coef: map[ssa.Value]int64{}, k: a.k, ok: a.ok}
+	for v, c := range a.coef {
+		phi, ok := v.(*ssa.Phi)
+		if ok {
+			if ind, ok := inductionOf(phi); ok {
+				t := iterCount[phi.Block()]
+				if t == nil {
+					t = new(ssa.Parameter)
+					iterCount[phi.Block()] = t
+				}
+				r.k += c * ind.init
+				r.coef[t] += c * ind.step
+				continue
+			}
+		}
+		r.coef[v] += c
+	}
+	for v, c := range r.coef {
+		if c == 0 {
+			delete(r.coef, v)
+		}
+	}
+	return r
+}
